@@ -280,6 +280,10 @@ def run(chk):
                     ok="MulByXaiMinusOne(&result->a[i], a, &bk->a[i]) for i <= k", bad=[summ.show_piece(c)[:100] for c in mc], variant=vn)
         sub = c11_adapter(chk, "R2")
         c11.check_monomial(sub, v, "torusPolynomialMulByXaiMinusOne", "coefsT", True)
+        # ---------------- R3 rotation loop (both variants)
+        from rules import c04
+        for suffix in ("", "_FFT"):
+            c04.check_blind_rotate(chk, v, suffix, "R3")
         # ---------------- R4 FFT image of the key
         ini = v.fn("init_LweBootstrappingKeyFFT")
         ips, _ = summ.pieces(v, ini, hooks=NOINLINE)
